@@ -27,6 +27,7 @@ Inductive c09case :=
 | KSplit (spec dflt : string) (sep : option bool) (m u : string)            (* split_format *)
 | KFlags (spec removed extracted : string)                                  (* remove/extract_custom_flags *)
 | KExpN (x : expo) (expected : option string)                               (* '{:n}'.format(x) *)
+| KExact (x : expo) (expected : bool)                                        (* is '{:n}' of |x| read back as |x|? *)
 | KSi (its : items) (expected : string)                                     (* siunitx_format_unit *)
 | KBack (f : fmtid) (short : bool) (its : items) (expected : option uc)     (* parse_units(format(u, spec)) *)
 | KDimKey (name : string) (idx : nat).                                      (* sort_by_dimensionality's key *)
@@ -60,6 +61,7 @@ Definition c09_ok (qk : quirks) (r : reg) (c : c09case) : bool :=
       let '(m', u') := split_format spec d sep in String.eqb m m' && String.eqb u u'
   | KFlags spec rm ex => String.eqb (remove_custom_flags spec) rm && String.eqb (extract_custom_flags spec) ex
   | KExpN x e => opt_eqb String.eqb (fmt_n as_found x) e      (* Python's own '{:n}', whatever pint does with it *)
+  | KExact x e => Bool.eqb (exact_renderedb qk x) e
   | KSi its e => String.eqb (siunitx_format_unit qk r its) e
   | KBack f short its e =>
       match back qk r f short its, e with
